@@ -6,7 +6,8 @@ A scenario is JSON:
 one script per thread.  Items: ["N", v] / ["E", name] / ["C"] drive the thread's own Subject;
 for the higher-order combinators thread 0 is the OUTER source and ["I", k] emits inner k (threads
 1.. drive inner 0..); for the window operators thread 1 is the TIMER thread and ["T"] fires the
-operator's pending timer action on it.
+operator's pending timer action on it.  "sub_thread": true — the subscription itself runs on one more controlled
+thread (index = number of scripts); the source waits until it is subscribed, the timer thread does not.
 """
 from __future__ import annotations
 
@@ -305,15 +306,28 @@ def run_threads(case, wall=8.0, max_steps=6000):
             obs, drivers, sources, sched = build(op, len(scripts), ctl, case.get("params"))
             _mark_source_locks(op, obs, sources)
             restore = _patch_ado_calls(ctl, rec)
-            obs.subscribe(rec.on_next, rec.on_error, rec.on_completed)
+            sub_thread = bool(case.get("sub_thread"))
+            state = {"subscribed": not sub_thread}
+            if not sub_thread:
+                obs.subscribe(rec.on_next, rec.on_error, rec.on_completed)
             # locks created during subscribe in the operator's module got role "OP" at creation
             for k, script in enumerate(scripts):
                 def body(k=k, script=script):
+                    if k == 0 and sub_thread:
+                        ctl.wait_until(lambda: state["subscribed"])  # the source emits once it has been subscribed
                     for j, item in enumerate(script):
                         ctl.yield_point(None, "H")
                         ctl.log.append((k, "H", j))
                         drivers[k](item)
                 ctl.spawn(body, f"src{k}")
+            if sub_thread:
+                # the combinator is subscribed on its own controlled thread: the operator's timer thread may fire while
+                # that thread is still inside subscribe() (after the first timer has been armed)
+                def subscriber():
+                    obs.subscribe(rec.on_next, rec.on_error, rec.on_completed)
+                    state["subscribed"] = True
+
+                ctl.spawn(subscriber, "subscriber")
         outcome = ctl.run()
     finally:
         if restore:
